@@ -23,7 +23,29 @@ def _viol(out, pid, check, symptom, site, c, lay, desc, detail="", config=None, 
                   schema=pycodec.schema_text(c), replay=dict(kind="c07", pid=pid, case=pack(c), config=config, extra=extra))
 
 
+def run_big(unit):
+    pid, tier = unit[1], unit[2]
+    out = UnitOut()
+    cases = scope.big_space()
+    with Scratch() as sc:
+        for k, c in enumerate(cases):
+            out.count("states")
+            out.count("transitions")
+            out.count("traces")
+            out.cls("big_message")
+            try:
+                std = cback.CBatch([c], sc.sub("big%d" % k))
+            except Exception as e:
+                _viol(out, pid, "pipeline", type(e).__name__, repo_site(e), c, [], "big message failed to render as C", exc_summary(e), config="render")
+                continue
+            constants([c], sc, std, out, pid, "big%d" % k)
+            constants_all_messages([c], sc, std, out, pid, "big%d" % k)
+    return out.result()
+
+
 def run_unit(unit):
+    if unit[0] == "BIG":
+        return run_big(unit)
     pid, tier, idxs = unit
     sp = pycodec.c_space(tier)
     cases = [sp[i] for i in idxs]
@@ -70,6 +92,39 @@ def constants(cases, sc, std, out, pid, tag):
                       "byte length constants %r, expected %d" % (got, want), config=lang)
 
 
+def constants_all_messages(cases, sc, std, out, pid, tag):
+    """(a') EVERY message of the compilation - nested ones and those in imported files too - gets the same
+    byte length in the three languages: name-agnostic comparison of the multisets of constants with the
+    reference sizes of all message definitions."""
+    import os
+    from ..ir import MessageDef, walk_defs
+    from ..pyback import render_all_files
+    want = []
+    for f in std.batch.all_files():
+        def rec(items):
+            for it in items:
+                if isinstance(it, MessageDef):
+                    want.append(ref.nbytes(it))
+                    rec(it.items)
+        rec(f.items)
+    want.sort()
+    main = os.path.join(std.dir, std.batch.filename)
+    try:
+        py, _ = render_all_files(main, "py", sc.sub("allpy" + tag))
+        go, _ = render_all_files(main, "go", sc.sub("allgo" + tag))
+    except Exception:
+        return  # reported by constants()
+    pyt, got = "\n".join(py.values()), "\n".join(go.values())
+    sets = dict(c=sorted(v for _, v in std.macros.values()), python=sorted(int(v) for _, v in PY_LEN.findall(pyt)),
+                go_const=sorted(int(v) for _, _, v in GO_CONST.findall(got)), go_size=sorted(int(v) for _, v in GO_SIZE.findall(got)))
+    out.count("constants_checked", 4 * len(want))
+    for lang, vals in sets.items():
+        if vals != want:
+            c = cases[0]
+            _viol(out, pid, "constants", "mismatch_some_message", "BYTES_LENGTH:" + lang, c, ref.layout(c.msg),
+                  "byte length constants of all %d messages of the batch (nested and imported included), sorted: %s has %r, expected %r" % (len(want), lang, vals, want), config=lang)
+
+
 def run_batch(pid, tier, cases, sc, out, tag="0", with_asan=True):
     try:
         std = cback.CBatch(cases, sc.sub("std" + tag))
@@ -88,6 +143,7 @@ def run_batch(pid, tier, cases, sc, out, tag="0", with_asan=True):
               exc_summary(e) if not isinstance(e, cback.CBuildError) else e.msg, config="build")
         return
     constants(cases, sc, std, out, pid, tag)
+    constants_all_messages(cases, sc, std, out, pid, tag)
     trad = [k for k, c in enumerate(cases) if copt.is_traditional(c)]
     opts = {}
     if trad:
@@ -220,9 +276,10 @@ def _run_py_case(pid, tier, c, mod, out):
     base_vecs = values.basis(leaves)[:2] + values.basis(leaves)[-1:]
     for bv in base_vecs:
         for li, l in enumerate(leaves):
-            if l.kind not in ("uint", "int", "byte"):
-                continue  # the statement says "integer field"
-            for ov in oor_values(l, bv[li]):
+            if l.kind not in ("uint", "int", "byte", "bool"):
+                continue  # enum leaves: an undeclared value is not "an integer field holding an out-of-range value"
+            # a bool is a field of n = 1 bit: "the bits a field contributes are a function of that field's low n bits only"
+            for ov in (oor_values(l, bv[li]) if l.kind != "bool" else [int(bv[li]) + d for d in (2, 4, 6, 254, 256, -2)]):
                 exp = ref.encode(c.msg, bv, lay)  # ov == bv[li] modulo 2^n by construction
                 if (ov - bv[li]) % (1 << l.width) != 0:
                     continue
@@ -233,7 +290,7 @@ def _run_py_case(pid, tier, c, mod, out):
                     with watchdog(10):
                         o = cls()
                         set_vec(o, leaves, bv)
-                        set_leaf(o, l, ov)
+                        set_leaf(o, l, ov, raw=True)  # a bool field is given the plain integer
                         got = bytes(o.encode())
                 except Exception as e:
                     # bytearray fields reject values outside 0..255 at assignment time: nothing is encoded, nothing leaks
@@ -255,7 +312,7 @@ def _run_py_case(pid, tier, c, mod, out):
 def units(pid, tier):
     sp = pycodec.c_space(tier)
     idx = list(range(len(sp)))
-    return [(pid, tier, idx[i:i + BATCH]) for i in range(0, len(idx), BATCH)]
+    return [("BIG", pid, tier)] + [(pid, tier, idx[i:i + BATCH]) for i in range(0, len(idx), BATCH)]
 
 
 def main(pid, tier):
